@@ -71,6 +71,7 @@ def replay(h, enc, Table, Missing):
     cols = lambda nc: ("a", "b") if nc == 2 else ("a", "b", "c")
     def same_rows(a, b):
         return len(a) == len(b) and all(len(x) == len(y) and all((p is q) if (p is Missing or q is Missing or p is None or q is None) else p == q for p, q in zip(x, y)) for x, y in zip(a, b))
+    stale = False      # rows were inserted into an indexed table that do not continue its order (known finding)
     base = Table(columns=("a", "b"))
     first = exp_rows(h[0])
     if first: base.insert(first)
@@ -82,10 +83,15 @@ def replay(h, enc, Table, Missing):
         try:
             if op == "index":
                 base.index(*args); cur = base
+                ks = list(zip(*(base[c] for c in base.indexes)))
+                stale = any(b < a for a, b in zip(ks, ks[1:]))      # index() on a table that already claims this index does nothing
             elif op in ("insert", "insertc"):
                 names = ("a", "b", "c")
                 dicts = [{names[i]: val(x) for i, x in enumerate(r) if x != M} for r in args]
                 base.insert(dicts); cur = base
+                if base.indexes:
+                    ks = list(zip(*(base[c] for c in base.indexes)))
+                    if any(b < a for a, b in zip(ks, ks[1:])): stale = True
             elif op == "copy":
                 cur = cur.copy()
             elif op == "groupby":
@@ -108,7 +114,7 @@ def replay(h, enc, Table, Missing):
                     if o == "=": variants.append(("implicit-eq", lambda t: t.where(**{col: a})))
                 exp = exp_rows(step)
                 got = rows_of(cur)
-                if not same_rows(got, exp): return ("where:" + o, "step %d where(%s %s %r) on a table indexed %s gave %r, expected (scan) %r" % (nstep, col, o, x, list(prev.indexes), got, exp))
+                if not same_rows(got, exp): return ("where:" + (o if not stale else "after-unsorted-insert-into-indexed-table"), "step %d where(%s %s %r) on a table indexed %s gave %r, expected (scan) %r" % (nstep, col, o, x, list(prev.indexes), got, exp))
                 for nm, f2 in variants:
                     g2 = rows_of(f2(prev))
                     if not same_rows(g2, exp): return ("where:%s:%s" % (o, nm), "step %d where(%s %s %r) given as %s gave %r, expected %r" % (nstep, col, o, x, nm, g2, exp))
@@ -126,9 +132,10 @@ def replay(h, enc, Table, Missing):
                 o1, x1, o2, x2 = args
                 cur = cur.where(a={o1: val(x1)}, b=(val(x2) if o2 == "plain" else {o2: val(x2)}))
             got = rows_of(cur); exp = exp_rows(step)
-            if not same_rows(got, exp): return (op, "step %d %s%r: table shows %r, expected %r" % (nstep, op, args, got, exp))
+            if not same_rows(got, exp): return (op if not (stale and op in ("where2", "index")) else "where:after-unsorted-insert-into-indexed-table", "step %d %s%r: table shows %r, expected %r" % (nstep, op, args, got, exp))
             if tuple(cur.columns) != cols(step["ncols"]): return (op + ":columns", "step %d columns %r expected %r" % (nstep, cur.columns, cols(step["ncols"])))
             if op in ("index", "copy") and tuple(cur.indexes) != tuple(step["idx"]): return (op + ":indexes", "step %d indexes %r expected %r" % (nstep, cur.indexes, step["idx"]))
         except Exception as e:
+            if stale and op in ("where", "where2"): return ("where:after-unsorted-insert-into-indexed-table", "step %d %s%r raised %s" % (nstep, op, args, type(e).__name__))
             return ("%s:raises:%s" % (op if op != "where" else "where:" + args[1], type(e).__name__), "step %d %s%r raised %s: %s" % (nstep, op, args, type(e).__name__, str(e)[:100]))
     return None
